@@ -577,7 +577,14 @@ def build_item(repo, item, log):
         ti = next(i for i, t in enumerate(toks) if t[1] == m.end() - 1)
         body_src = src[m.end():toks[lex.match_close(src, toks, ti)][1]]
         out = []
-        for fname, src_ty, new_ty in item["fields"]:
+        fields = list(item.get("fields", []))
+        if item.get("mirror_all"):
+            # every field of the source struct, atomics mapped to plain integers/bools (R4), other types verbatim
+            amap = {"AtomicBool": "bool", "AtomicU64": "u64", "AtomicU32": "u32", "AtomicU16": "u16", "AtomicUsize": "usize", "AtomicI64": "i64"}
+            for fm in re.finditer(r"(?m)^\s*(?:pub(?:\([a-z]+\))?\s+)?(\w+)\s*:\s*(.+?),\s*(?://.*)?$", body_src):
+                ty = lex.norm(fm.group(2))
+                fields.append((fm.group(1), ty, item.get("type_map", {}).get(ty, amap.get(ty, ty))))
+        for fname, src_ty, new_ty in fields:
             fm = re.search(r"(?m)^\s*(?:pub(?:\([a-z]+\))?\s+)?%s\s*:\s*(.+?),\s*(?://.*)?$" % re.escape(fname), body_src)
             if not fm:
                 raise ExtractError("lost anchor: field %s.%s" % (item["struct"], fname))
@@ -589,10 +596,25 @@ def build_item(repo, item, log):
         for extra in item.get("ghost_fields", []):
             out.append("    pub %s," % extra)
         where = "%s:%d" % (item["file"], lex.line_of(src, m.start()))
-        text = "// ---- struct mirror of %s (%d of its fields)\npub struct %s {\n%s\n}\n" % (where, len(item["fields"]), item.get("as", item["struct"]), "\n".join(out))
+        text = "// ---- struct mirror of %s (%d of its fields)\npub struct %s {\n%s\n}\n" % (where, len(fields), item.get("as", item["struct"]), "\n".join(out))
         return dict(name=item["struct"], text=text, where=where, raw_lines=len(out), body=None, head=None, attrs="", is_type=True)
     elif kind == "stub":
         # assumed contract of a callee that is verified elsewhere (or not at all): listed in the evidence
+        if item.get("anchor"):
+            # the assumed contract is tied to the exact (whitespace/comment-normalised) text of the function it describes:
+            # any edit of that function makes the unit undecided instead of silently keeping the assumption
+            a = item["anchor"]
+            try:
+                asrc = open(os.path.join(repo, a["file"])).read()
+            except OSError as e:
+                raise ExtractError("lost anchor: cannot read %s: %s" % (a["file"], e))
+            af = locate_fn(asrc, a["path"])
+            got = lex.norm_code(af["body"])
+            if got.startswith("{") and got.endswith("}"):
+                got = got[1:-1].strip()
+            if got != lex.norm_code(a["body"]):
+                raise ExtractError("assumed contract of %s: its source text changed (contract no longer known to describe it): %r" % (a["path"], lex.norm_code(af["body"])[:300]))
+            log.add("R14", "assumed contract anchored to unchanged source text", a["path"], item["sig"])
         head = item["sig"].rstrip() + "\n" + clauses("requires", item.get("requires")) + clauses("ensures", item.get("ensures"))
         text = "// ---- ASSUMED CONTRACT (%s)\n#[verifier::external_body]\n%s{ unimplemented!() }\n" % (item.get("proved_in", "unproved"), head)
         if item.get("impl"):
@@ -647,6 +669,10 @@ def build_item(repo, item, log):
         assert body.lstrip().startswith("{")
         i = body.index("{")
         body = body[:i + 1] + "\n    " + item["proof_prologue"] + "\n" + body[i + 1:]
+    if item.get("proof_epilogue"):
+        # anchor-free: just before the closing brace of the body (for bodies that end in a statement, i.e. return `()`)
+        j = body.rindex("}")
+        body = body[:j] + "    " + item["proof_epilogue"] + "\n" + body[j:]
     head = sig.rstrip() + "\n" + clauses("requires", item.get("requires")) + clauses("ensures", item.get("ensures"))
     if item.get("decreases"):
         head += "    decreases %s,\n" % item["decreases"]
